@@ -5,13 +5,15 @@ import (
 	"encoding/json"
 	"fmt"
 	"io"
+	"os"
+	"runtime"
 	"strings"
 	"time"
 
 	vs "github.com/trzsz/trzsz-go/zzverif/vsched"
 )
 
-var c12ScannerNames = []string{"detectTrzsz", "detectZmodem", "detectOSC52", "detectDragFiles", "stripTmuxStatusLine", "readLineOnWindows", "escapeTable", "transformPromptInput", "drag-mac-win"}
+var c12ScannerNames = []string{"detectTrzsz", "detectZmodem", "detectOSC52", "detectDragFiles", "stripTmuxStatusLine", "readLineOnWindows", "escapeTable", "transformPromptInput", "drag-mac-win", "archiveHeader"}
 
 // token alphabets: fragments that steer each scanner into its branches
 var c12Tokens = map[string][]string{
@@ -75,7 +77,91 @@ func c12Scan(name string, in []byte) {
 	}
 }
 
+// c12ArchiveHeaders: the entry headers of an archive stream are peer input too (they travel inside the
+// DATA payloads of a protocol-4 directory transfer, out of reach of the line-level man in the middle):
+// every member of the header record x the JSON boundary values (and absent), followed by 0, 5 or 40
+// payload bytes and a well-formed next entry, written to the real archive writer whole and with every
+// single cut near the header's end.
+func c12ArchiveHeaders(j vs.Job) *vs.JobResult {
+	r := &vs.JobResult{Outcomes: map[string]int64{}}
+	members := []string{"path_id", "path_name", "is_dir", "archive", "size", "perm"}
+	base := map[string]string{"path_id": "0", "path_name": `["r","a.bin"]`, "is_dir": "false", "archive": "false", "size": "5", "perm": "420"}
+	vals := append(append([]string{}, c12JSONVals...), "9223372036854775807", "-2", "5", `["r"]`, `["r","sub","b.bin"]`, `["r",""]`, "ABSENT")
+	render := func(m map[string]string) string {
+		var parts []string
+		for _, k := range members {
+			if v, ok := m[k]; ok {
+				parts = append(parts, fmt.Sprintf("%q:%s", k, v))
+			}
+		}
+		return "{" + strings.Join(parts, ",") + "}"
+	}
+	next := encodeString(`{"path_id":0,"path_name":["r","z.bin"],"is_dir":false,"archive":false,"size":3,"perm":420}`) + "\nzzz"
+	perm := uint32(0o755)
+	for _, mem := range members {
+		for _, v := range vals {
+			m := map[string]string{}
+			for k, x := range base {
+				m[k] = x
+			}
+			if v == "ABSENT" {
+				delete(m, mem)
+			} else {
+				m[mem] = v
+			}
+			hdr := encodeString(render(m)) + "\n"
+			for _, payload := range []string{"", "!!!!\n", strings.Repeat("p", 40)} {
+				stream := []byte(hdr + payload + next)
+				cuts := [][]int{nil}
+				for c := len(hdr) - 2; c <= len(hdr)+6 && c < len(stream); c++ {
+					if c > 0 {
+						cuts = append(cuts, []int{c})
+					}
+				}
+				for _, cut := range cuts {
+					dst, err := os.MkdirTemp(scratchDir(), "ah")
+					if err != nil {
+						r.ToolErr = err.Error()
+						return r
+					}
+					var m0, m1 runtime.MemStats
+					runtime.ReadMemStats(&m0)
+					crash := ""
+					func() {
+						defer func() {
+							if e := recover(); e != nil {
+								crash = fmt.Sprintf("%v", e)
+							}
+						}()
+						top := &sourceFile{PathID: 0, RelPath: []string{"r"}, IsDir: true, Perm: &perm}
+						_ = c15Consume(dst, top, stream, cut)
+					}()
+					runtime.ReadMemStats(&m1)
+					os.RemoveAll(dst)
+					r.Execs++
+					r.Nontrivial++
+					desc := fmt.Sprintf("archive entry header %s (member %s = %s) followed by %q, cut %v", render(m), mem, v, clipStr(payload, 12), cut)
+					if crash != "" {
+						r.Violate("c12:archive-header:panic:"+mem, desc+": the archive writer panics (in the product: in a goroutine without recover, the process dies): "+crash, nil)
+					} else if d := m1.TotalAlloc - m0.TotalAlloc; d > 64<<20 {
+						r.Violate("c12:archive-header:alloc:"+mem, fmt.Sprintf("%s: %d MiB allocated", desc, d>>20), nil)
+					}
+					if len(r.Violations) > 4 {
+						return r
+					}
+				}
+			}
+		}
+	}
+	r.Outcomes["archive headers ok"] = r.Execs
+	r.Samples = append(r.Samples, fmt.Sprintf("archive entry headers: %d members x %d values x 3 payloads x whole/cuts around the header end", len(members), len(vals)))
+	return r
+}
+
 func c12Scanners(j vs.Job, p c12Params) *vs.JobResult {
+	if p.Scanner == "archiveHeader" {
+		return c12ArchiveHeaders(j)
+	}
 	r := &vs.JobResult{Outcomes: map[string]int64{}}
 	toks := c12Tokens[p.Scanner]
 	saved := writeToClipboard
